@@ -296,6 +296,15 @@ class LuaTemplates:
             if m == "unwrap_or" and peel(e["recv"]).get("k") == "MethodCall" and peel(e["recv"])["m"] == "strip_suffix":
                 inner = peel(e["recv"])
                 return [("raw-stripped", self.ref_of(inner["recv"], refs, env), pp(inner["args"][0]))]
+            if m == "replace" and len(e["args"]) == 2:
+                # s.replace('\n', "\\n"): the payload with some characters written as escapes
+                inner = self.sval(e["recv"], refs, env, depth + 1)
+                a, b = peel(e["args"][0]), peel(e["args"][1])
+                if a.get("k") == "Lit" and b.get("k") == "Lit" and len(inner) == 1 and isinstance(inner[0], tuple) and \
+                        inner[0][0] in ("raw", "raw-escaped"):
+                    prev = inner[0][2] if inner[0][0] == "raw-escaped" else ()
+                    return [("raw-escaped", inner[0][1], prev + ((str(a.get("v")), str(b.get("v"))),))]
+                return [("dyn", pp(e)[:40])]
             if m == "join":
                 sep = self.sval(e["args"][0], refs, env, depth + 1)
                 sep = sep[0] if sep and isinstance(sep[0], str) else "?"
@@ -398,6 +407,8 @@ def render(parts, hole=None):
             return hole(p)
         if p[0] == "map*":
             return "{map* %s: %s sep %r}" % (p[1], render(p[2]), p[3])
+        if p[0] == "raw-escaped":
+            return "{raw-escaped:%s}" % (p[1],)
         return "{" + ":".join(str(x) for x in p) + "}"
     return "".join(p if isinstance(p, str) else h(p) for p in parts)
 
@@ -485,7 +496,7 @@ def summary(T, name, entry=None):
             s["names"].add(h[1])
         elif h[0] == "name*":
             s["names"].add((h[1], "*"))
-        elif h[0] in ("raw", "raw-debug", "raw-stripped"):
+        elif h[0] in ("raw", "raw-debug", "raw-stripped", "raw-escaped"):
             s["raws"].add(h[1])
         elif h[0] in ("num", "num-debug"):
             s["nums"].add(h[1])
